@@ -1762,3 +1762,454 @@ Qed.
 Theorem create_only_fresh : forall s e id ty pr amt fdl vdl goal pass cv s' ev,
   h_create s e id ty pr amt fdl vdl goal pass cv = Some (s', ev) -> g_props s !! id = None.
 Proof. intros. eapply create_nt; eauto. Qed.
+
+(* ====================== relaunch from an exported state (dump / load) ====================== *)
+Definition WP (p : prec) : Prop := NoDup (map v_val (p_votes p)) /\ NoDup (map fst (p_indiv p)).
+Definition WInv (s : state) : Prop := forall id p, g_props s !! id = Some p -> WP p.
+
+Lemma aupd_keys f d l : map fst (aupd f d l) = if bool_decide (f ∈ map fst l) then map fst l else map fst l ++ [f].
+Proof.
+  induction l as [|[k v] l IH]; simpl; [reflexivity|].
+  destruct (N.eqb f k) eqn:E.
+  - apply N.eqb_eq in E. subst. simpl. rewrite bool_decide_eq_true_2 by (left). reflexivity.
+  - apply N.eqb_neq in E. simpl. rewrite IH.
+    destruct (bool_decide (f ∈ map fst l)) eqn:Eb.
+    + apply bool_decide_eq_true in Eb. rewrite bool_decide_eq_true_2 by (right; exact Eb). reflexivity.
+    + apply bool_decide_eq_false in Eb. rewrite bool_decide_eq_false_2; [reflexivity|].
+      intros Hin. apply elem_of_cons in Hin. destruct Hin; [congruence|contradiction].
+Qed.
+
+Lemma aupd_nodup f d l : NoDup (map fst l) -> NoDup (map fst (aupd f d l)).
+Proof.
+  intros H. rewrite aupd_keys. destruct (bool_decide (f ∈ map fst l)) eqn:Eb; [exact H|].
+  apply bool_decide_eq_false in Eb. apply NoDup_app. split; [exact H|]. split.
+  - intros x Hx Hin. apply elem_of_list_singleton in Hin. subst. contradiction.
+  - apply NoDup_singleton.
+Qed.
+
+Lemma aupd_absent f d l : f ∉ map fst l -> aupd f d l = l ++ [(f, d)].
+Proof.
+  induction l as [|[k v] l IH]; simpl; intros H; [reflexivity|].
+  destruct (N.eqb f k) eqn:E.
+  - apply N.eqb_eq in E. subst. exfalso. apply H. left.
+  - rewrite IH; [reflexivity|]. intros Hin. apply H. right. exact Hin.
+Qed.
+
+Lemma vote_setup_vals v pw vs :
+  map v_val (vote_setup v pw vs) = if bool_decide (v ∈ map v_val vs) then map v_val vs else map v_val vs ++ [v].
+Proof.
+  induction vs as [|x r IH]; simpl; [reflexivity|].
+  destruct (N.eqb (v_val x) v) eqn:E.
+  - apply N.eqb_eq in E. subst. simpl. rewrite bool_decide_eq_true_2 by left. reflexivity.
+  - apply N.eqb_neq in E. simpl. rewrite IH.
+    destruct (bool_decide (v ∈ map v_val r)) eqn:Eb.
+    + apply bool_decide_eq_true in Eb. rewrite bool_decide_eq_true_2 by (right; exact Eb). reflexivity.
+    + apply bool_decide_eq_false in Eb. rewrite bool_decide_eq_false_2; [reflexivity|].
+      intros Hin. apply elem_of_cons in Hin. destruct Hin; [congruence|contradiction].
+Qed.
+
+Lemma vote_setup_nodup v pw vs : NoDup (map v_val vs) -> NoDup (map v_val (vote_setup v pw vs)).
+Proof.
+  intros H. rewrite vote_setup_vals. destruct (bool_decide (v ∈ map v_val vs)) eqn:Eb; [exact H|].
+  apply bool_decide_eq_false in Eb. apply NoDup_app. split; [exact H|]. split.
+  - intros x Hx Hin. apply elem_of_list_singleton in Hin. subst. contradiction.
+  - apply NoDup_singleton.
+Qed.
+
+Lemma snapshot_nodup act : forall vs, NoDup (map v_val vs) -> NoDup (map v_val (snapshot act vs)).
+Proof.
+  unfold snapshot. induction act as [|a act IH]; intros vs H; simpl; [exact H|].
+  apply IH. apply vote_setup_nodup. exact H.
+Qed.
+
+Lemma vote_update_vals : forall v o vs vs', vote_update v o vs = Some vs' -> map v_val vs' = map v_val vs.
+Proof.
+  intros v o. induction vs as [|x r IH]; intros vs' H; simpl in H; [discriminate|].
+  destruct (N.eqb (v_val x) v).
+  - injection H as <-. reflexivity.
+  - destruct (vote_update v o r) as [r'|]; [|discriminate]. injection H as <-. simpl. rewrite (IH r'); reflexivity.
+Qed.
+
+Definition wupd (s s' : state) : Prop :=
+  g_props s' = g_props s \/
+  exists id p', g_props s' = <[id := p']> (g_props s) /\
+    match g_props s !! id with Some p => WP p -> WP p' | None => WP p' end.
+
+Lemma wupd_sound s s' : wupd s s' -> WInv s -> WInv s'.
+Proof.
+  intros [Heq | (id & p' & Heq & Hm)] HI i p Hp; rewrite Heq in Hp; [eauto|].
+  destruct (decide (i = id)) as [->|Hne].
+  - rewrite lookup_insert in Hp. inversion Hp; subst.
+    destruct (g_props s !! id) as [p0|] eqn:E; [apply Hm; eauto | exact Hm].
+  - rewrite lookup_insert_ne in Hp by congruence. eauto.
+Qed.
+
+Lemma WP_add_funds b p f a : WP p -> WP (add_funds b p f a).
+Proof. intros [Hv Hi]. unfold WP. rewrite af_votes, af_indiv. split; [exact Hv | apply aupd_nodup; exact Hi]. Qed.
+
+Lemma same_funds_votes_wupd s s' id p p' : g_props s !! id = Some p -> g_props s' = <[id := p']> (g_props s) ->
+  p_indiv p' = p_indiv p -> map v_val (p_votes p') = map v_val (p_votes p) -> wupd s s'.
+Proof.
+  intros E Heq Hi Hv. right. exists id, p'. split; [exact Heq|]. rewrite E. unfold WP. rewrite Hi, Hv. auto.
+Qed.
+
+Lemma create_wupd : forall s e id ty pr amt fdl vdl goal pass cv s' ev,
+  h_create s e id ty pr amt fdl vdl goal pass cv = Some (s', ev) -> wupd s s'.
+Proof.
+  intros s e id ty pr amt fdl vdl goal pass cv s' ev H. unfold h_create in H. cbv zeta in H.
+  repeat match type of H with (if ?c then None else _) = _ =>
+    match type of c with bool => destruct c; [discriminate|] end end.
+  destruct (g_props s !! id) eqn:E; [discriminate|].
+  destruct (bal s pr - amt <? 0); [discriminate|]. inversion H; subst; clear H.
+  right. exists id. eexists. split; [reflexivity|]. rewrite E.
+  apply WP_add_funds. split; simpl; constructor.
+Qed.
+
+Lemma fund_wupd : forall s e id f amt s' ev, h_fund s e id f amt = Some (s', ev) -> wupd s s'.
+Proof.
+  intros s e id f amt s' ev H. unfold h_fund in H.
+  destruct (amt <=? 0); [discriminate|].
+  destruct (g_props s !! id) as [p|] eqn:E; [|discriminate].
+  destruct (bool_decide (p_store p = SActive)); simpl in H; [|discriminate].
+  destruct (p_fdl p <? g_h s); [discriminate|].
+  destruct (bool_decide (p_status p = StFunding)); simpl in H; [|discriminate].
+  destruct (bal s f - amt <? 0); [discriminate|]. inversion H; subst; clear H.
+  right. exists id. eexists. split; [reflexivity|]. rewrite E. intros HW.
+  apply WP_add_funds. destruct (p_goal p <=? amt + p_total p); [|exact HW].
+  destruct HW as [Hv Hi]. split; simpl; [apply snapshot_nodup; exact Hv | exact Hi].
+Qed.
+
+Lemma vote_wupd : forall s e id v o s' ev, h_vote s e id v o = Some (s', ev) -> wupd s s'.
+Proof.
+  intros s e id v o s' ev H. unfold h_vote in H.
+  destruct (g_props s !! id) as [p|] eqn:E; [|discriminate].
+  destruct (bool_decide (p_store p = SActive)); simpl in H; [|discriminate].
+  destruct (bool_decide (p_status p = StVoting)); simpl in H; [|discriminate].
+  destruct (p_vdl p <? g_h s); [discriminate|].
+  destruct (bool_decide (v ∈ e_vals e)); simpl in H; [|discriminate].
+  destruct (vote_update v o (p_votes p)) as [vs|] eqn:Ev; [|discriminate].
+  destruct (p_snapblk p =? g_blk s); [discriminate|].
+  inversion H; subst; clear H. apply vote_update_vals in Ev.
+  eapply same_funds_votes_wupd; [exact E | reflexivity | |]; destruct (tally vs _); simpl; auto.
+Qed.
+
+Lemma cancel_wupd : forall s id pr s' ev, h_cancel s id pr = Some (s', ev) -> wupd s s'.
+Proof.
+  intros s id pr s' ev H. unfold h_cancel in H.
+  destruct (g_props s !! id) as [p|] eqn:E; [|discriminate].
+  repeat match type of H with (if ?c then None else _) = _ =>
+    match type of c with bool => destruct c; [discriminate|] end end.
+  inversion H; subst; clear H. eapply same_funds_votes_wupd; [exact E | reflexivity | reflexivity | reflexivity].
+Qed.
+
+Lemma expire_wupd : forall s id s' ev, h_expire s id = Some (s', ev) -> wupd s s'.
+Proof.
+  intros s id s' ev H. unfold h_expire in H.
+  destruct (g_props s !! id) as [p|] eqn:E; [|discriminate].
+  repeat match type of H with (if ?c then None else _) = _ =>
+    match type of c with bool => destruct c; [discriminate|] end end.
+  inversion H; subst; clear H. eapply same_funds_votes_wupd; [exact E | reflexivity | reflexivity | reflexivity].
+Qed.
+
+Lemma withdraw_wupd : forall s id f amt ben s' ev, h_withdraw s id f amt ben = Some (s', ev) -> wupd s s'.
+Proof.
+  intros s id f amt ben s' ev H. unfold h_withdraw in H.
+  destruct (g_props s !! id) as [p|] eqn:E; [|discriminate].
+  destruct (bool_decide (p_store p = SActive) || bool_decide (p_store p = SFailed)); simpl in H; [|discriminate].
+  destruct (amt <=? 0); [discriminate|].
+  destruct (refundable (p_outcome p)).
+  - destruct (funded_visible (g_blk s) p f); [|discriminate].
+    destruct (alookup f (p_indiv p)); [|discriminate].
+    destruct (_ - amt <? 0); [discriminate|]. destruct (p_total p - amt <? 0); [discriminate|].
+    inversion H; subst; clear H. right. eexists. eexists. split; [reflexivity|]. rewrite E.
+    intros [Hv Hi]. split; simpl; [exact Hv | apply aupd_nodup; exact Hi].
+  - destruct ((p_goal p <=? p_total p) || (g_h s <=? p_fdl p)); [discriminate|].
+    cbv zeta in H. simpl in H.
+    destruct (funded_visible (g_blk s) _ f); [|discriminate].
+    destruct (alookup f (p_indiv p)); [|discriminate]. simpl in H.
+    destruct (_ - amt <? 0); [discriminate|]. destruct (p_total p - amt <? 0); [discriminate|].
+    inversion H; subst; clear H. right. eexists. eexists. split; [reflexivity|]. rewrite E.
+    intros [Hv Hi]. split; simpl; [exact Hv | apply aupd_nodup; exact Hi].
+Qed.
+
+Lemma finalize_wupd : forall s e id s' ev, h_finalize s e id = Some (s', ev) -> wupd s s'.
+Proof.
+  intros s e id s' ev H. unfold h_finalize, fin_move in H.
+  destruct (g_props s !! id) as [p|] eqn:E; [|discriminate].
+  destruct (8 <=? p_extra p). { inversion H; subst. left. reflexivity. }
+  destruct (p_store p) eqn:Es; try discriminate;
+    try (inversion H; subst; left; reflexivity).
+  all: destruct (bool_decide (p_status p = StCompleted)) eqn:E2; simpl in H; [|discriminate].
+  all: destruct (if p_snapblk p =? g_blk s then [] else p_votes p) as [|v0 vr] eqn:Ev; [discriminate|].
+  all: destruct (tally (p_votes p) (p_pass p)); try discriminate.
+  all: try (destruct (bool_decide (p_type p = TConfig) && bool_decide (id ∈ e_cfgfail e))).
+  all: try (destruct (distribute _ e id p _) as [[s1 paid] bad] eqn:Ed; apply distribute_props in Ed).
+  all: simpl in H; inversion H; subst; clear H.
+  all: right; exists id; eexists.
+  all: (split; [ rewrite ?props_anom; simpl; rewrite ?Ed; try destruct (bool_decide (p_type p = TConfig)); reflexivity |]).
+  all: rewrite E; intros [Hv Hi]; unfold WP, del_funds; simpl; (split; [exact Hv | first [exact Hi | constructor]]).
+Qed.
+
+Lemma run_queue_winv : forall (h : state -> N -> hres) q s,
+  (forall st id st' ev, h st id = Some (st', ev) -> wupd st st') -> WInv s -> WInv (run_queue h q s).1.
+Proof.
+  intros h q s Hh. unfold run_queue.
+  assert (G : forall q acc, WInv acc.1 ->
+            WInv (fold_left (fun acc id => match h acc.1 id with
+                                           | Some (s', ev) => (s', acc.2 ++ ev)
+                                           | None => acc end) q acc).1).
+  { induction q0 as [|id q0 IH]; intros acc Hacc; simpl; [exact Hacc|].
+    apply IH. destruct (h acc.1 id) as [[st' ev]|] eqn:Eh; [|exact Hacc].
+    simpl. eapply wupd_sound; [eapply Hh; eauto | exact Hacc]. }
+  intros HI. apply G. exact HI.
+Qed.
+
+Lemma step_winv s t : WInv s -> WInv (step s t).1.1.
+Proof.
+  intros HI. unfold step.
+  assert (Hc : forall r, (forall s1 ev, r = Some (s1, ev) -> wupd s s1) ->
+               WInv (match charge r (t_payer t) (t_fee t) with
+                     | Some (s', ev) => (s', true, ev) | None => (s, false, []) end).1.1).
+  { intros r Hr. destruct (charge r (t_payer t) (t_fee t)) as [[s' ev]|] eqn:Ec; simpl; [|exact HI].
+    apply charge_props in Ec. destruct Ec as (s1 & -> & Heq).
+    intros i p Hp. rewrite Heq in Hp. eapply (wupd_sound s s1); eauto. }
+  destruct (t_op t) eqn:Eo.
+  - exact HI.
+  - apply Hc. intros; eapply create_wupd; eauto.
+  - apply Hc. intros; eapply fund_wupd; eauto.
+  - apply Hc. intros; eapply vote_wupd; eauto.
+  - apply Hc. intros; eapply cancel_wupd; eauto.
+  - apply Hc. intros; eapply withdraw_wupd; eauto.
+  - destruct (h_expire s id) as [[s' ev]|] eqn:Eh; simpl; [|exact HI].
+    eapply wupd_sound; [eapply expire_wupd; eauto | exact HI].
+  - destruct (h_finalize s (t_env t) id) as [[s' ev]|] eqn:Eh; simpl; [|exact HI].
+    eapply wupd_sound; [eapply finalize_wupd; eauto | exact HI].
+  - unfold end_block.
+    destruct (run_queue h_expire (g_qexp s) s) as [s1 ev1] eqn:E1.
+    destruct (run_queue (fun st id => h_finalize st (t_env t) id) (g_qfin s) s1) as [s2 ev2] eqn:E2.
+    simpl.
+    pose proof (run_queue_winv h_expire (g_qexp s) s (fun st i st' ev H => expire_wupd st i st' ev H) HI) as Q1.
+    rewrite E1 in Q1. simpl in Q1.
+    pose proof (run_queue_winv (fun st id => h_finalize st (t_env t) id) (g_qfin s) s1
+                 (fun st i st' ev H => finalize_wupd st (t_env t) i st' ev H) Q1) as Q2.
+    rewrite E2 in Q2. exact Q2.
+  - apply Hc. intros s1 ev H. inversion H; subst. left. reflexivity.
+Qed.
+
+(* ---- load ∘ dump ---- *)
+Local Arguments add_funds : simpl never.
+Lemma load_dump_lookup s ver blk (i : N) :
+  load blk (dump s ver) !! i = (fun p => load_rec blk (dump_rec ver p)) <$> (g_props s !! i).
+Proof.
+  unfold load, dump. rewrite map_map. simpl.
+  change (map (fun x : N * prec => (x.1, load_rec blk (dump_rec ver x.2))) (map_to_list (g_props s)))
+    with (prod_map (fun x : N => x) (fun p => load_rec blk (dump_rec ver p)) <$> map_to_list (g_props s)).
+  rewrite list_to_map_fmap, list_to_map_to_list, lookup_fmap. reflexivity.
+Qed.
+
+Definition lf (blk : Z) (ind : list (N * Z)) (q : prec) : prec :=
+  fold_left (fun q kv => add_funds blk q kv.1 kv.2) ind q.
+Lemma lf_cons blk f a ind q : lf blk ((f, a) :: ind) q = lf blk ind (add_funds blk q f a).
+Proof. reflexivity. Qed.
+
+Lemma load_funds_fields blk : forall ind q,
+  p_store (lf blk ind q) = p_store q /\ p_status (lf blk ind q) = p_status q /\ p_outcome (lf blk ind q) = p_outcome q /\
+  p_goal (lf blk ind q) = p_goal q /\ p_votes (lf blk ind q) = p_votes q /\ p_extra (lf blk ind q) = p_extra q /\
+  p_vdl (lf blk ind q) = p_vdl q /\ p_pass (lf blk ind q) = p_pass q /\
+  p_total (lf blk ind q) = p_total q + asum ind /\
+  p_indiv (lf blk ind q) = fold_left (fun l kv => aupd kv.1 kv.2 l) ind (p_indiv q).
+Proof.
+  induction ind as [|[f a] ind IH]; intros q.
+  - unfold lf, asum. simpl. repeat split; try reflexivity. lia.
+  - rewrite lf_cons. destruct (IH (add_funds blk q f a)) as (H1 & H2 & H3 & H4 & H5 & H6 & H7 & H8 & H9 & H10).
+    rewrite H1, H2, H3, H4, H5, H6, H7, H8, H9, H10.
+    rewrite af_store, af_status, af_outcome, af_goal, af_votes, af_extra, af_vdl, af_pass, af_total, af_indiv.
+    repeat split; try reflexivity. unfold asum. simpl. lia.
+Qed.
+
+Lemma fold_aupd_nodup : forall ind l0, NoDup (map fst (l0 ++ ind)) ->
+  fold_left (fun l (kv : N * Z) => aupd kv.1 kv.2 l) ind l0 = l0 ++ ind.
+Proof.
+  induction ind as [|[f a] ind IH]; intros l0 H; simpl; [rewrite app_nil_r; reflexivity|].
+  rewrite aupd_absent.
+  - rewrite IH; [rewrite <- app_assoc; reflexivity|]. rewrite <- app_assoc. exact H.
+  - rewrite map_app in H. apply NoDup_app in H. destruct H as (_ & H & _).
+    intros Hin. apply (H f Hin). simpl. left.
+Qed.
+
+Lemma vote_setup_absent v pw vs : v ∉ map v_val vs -> vote_setup v pw vs = vs ++ [mkVote v pw OpUnknown].
+Proof.
+  induction vs as [|x r IH]; simpl; intros H; [reflexivity|].
+  destruct (N.eqb (v_val x) v) eqn:E.
+  - apply N.eqb_eq in E. subst. exfalso. apply H. left.
+  - rewrite IH; [reflexivity|]. intros Hin. apply H. right. exact Hin.
+Qed.
+
+Lemma vote_update_last v pw o vs : v ∉ map v_val vs ->
+  vote_update v o (vs ++ [mkVote v pw OpUnknown]) = Some (vs ++ [mkVote v pw o]).
+Proof.
+  induction vs as [|x r IH]; simpl; intros H.
+  - rewrite N.eqb_refl. reflexivity.
+  - destruct (N.eqb (v_val x) v) eqn:E.
+    + apply N.eqb_eq in E. subst. exfalso. apply H. left.
+    + rewrite IH; [reflexivity|]. intros Hin. apply H. right. exact Hin.
+Qed.
+
+Lemma load_votes_nodup_gen : forall vs acc, NoDup (map v_val (acc ++ vs)) ->
+  fold_left (fun acc v => match vote_update (v_val v) (v_op v) (vote_setup (v_val v) (v_power v) acc) with
+                          | Some acc' => acc' | None => acc end) vs acc = acc ++ vs.
+Proof.
+  induction vs as [|x vs IH]; intros acc H; simpl; [rewrite app_nil_r; reflexivity|].
+  assert (Hx : v_val x ∉ map v_val acc).
+  { rewrite map_app in H. apply NoDup_app in H. destruct H as (_ & H & _).
+    intros Hin. apply (H _ Hin). simpl. left. }
+  rewrite vote_setup_absent by exact Hx. rewrite vote_update_last by exact Hx.
+  replace (mkVote (v_val x) (v_power x) (v_op x)) with x by (destruct x; reflexivity).
+  rewrite IH; [rewrite <- app_assoc; reflexivity|]. rewrite <- app_assoc. exact H.
+Qed.
+
+Lemma load_votes_nodup vs : NoDup (map v_val vs) -> load_votes vs = vs.
+Proof. intros H. unfold load_votes. rewrite load_votes_nodup_gen; [reflexivity | exact H]. Qed.
+
+(* what a record looks like after export + import: everything but the bookkeeping of storage visibility is preserved;
+   the deadlines of an active proposal are relative to the exported version *)
+Definition same_record (ver : Z) (p r : prec) : Prop :=
+  p_store r = p_store p /\ p_status r = p_status p /\ p_outcome r = p_outcome p /\ p_type r = p_type p /\
+  p_proposer r = p_proposer p /\ p_goal r = p_goal p /\ p_pass r = p_pass p /\ p_extra r = p_extra p /\
+  p_total r = p_total p /\ p_indiv r = p_indiv p /\ p_votes r = p_votes p /\
+  (p_store p = SActive -> p_fdl r = Z.max 0 (p_fdl p - ver) /\ p_vdl r = Z.max 0 (p_vdl p - ver)) /\
+  (p_store p <> SActive -> p_fdl r = p_fdl p /\ p_vdl r = p_vdl p).
+
+Lemma dump_rec_fields ver p :
+  let d := dump_rec ver p in
+  p_store d = p_store p /\ p_status d = p_status p /\ p_outcome d = p_outcome p /\ p_type d = p_type p /\
+  p_proposer d = p_proposer p /\ p_goal d = p_goal p /\ p_pass d = p_pass p /\ p_extra d = p_extra p /\
+  p_total d = p_total p /\ p_indiv d = p_indiv p /\ p_votes d = p_votes p.
+Proof. unfold dump_rec. destruct (bool_decide (p_store p = SActive)); simpl; repeat split; reflexivity. Qed.
+
+Theorem load_dump_record : forall blk ver p, WP p -> p_total p = asum (p_indiv p) ->
+  same_record ver p (load_rec blk (dump_rec ver p)).
+Proof.
+  intros blk ver p [Hv Hi] Ht.
+  destruct (dump_rec_fields ver p) as (D1 & D2 & D3 & D4 & D5 & D6 & D7 & D8 & D9 & D10 & D11).
+  pose proof (load_funds_fields blk (p_indiv (dump_rec ver p)) (with_newf (with_funds (dump_rec ver p) 0 []) [])) as L.
+  destruct L as (L1 & L2 & L3 & L4 & L5 & L6 & L7 & L8 & L9 & L10).
+  unfold lf in *. simpl in L1, L2, L3, L4, L5, L6, L7, L8, L9, L10.
+  unfold same_record, load_rec, load_funds. simpl.
+  rewrite L1, L2, L3, L4, L6, L7, L8, L9, L10, D10, D11.
+  rewrite (fold_aupd_nodup (p_indiv p) []) by exact Hi. rewrite load_votes_nodup by exact Hv. simpl.
+  assert (Ho : forall (l : list (N * Z)) (q : prec),
+            p_outcome (fold_left (fun q kv => add_funds blk q kv.1 kv.2) l q) = p_outcome q /\
+            p_type (fold_left (fun q kv => add_funds blk q kv.1 kv.2) l q) = p_type q /\
+            p_proposer (fold_left (fun q kv => add_funds blk q kv.1 kv.2) l q) = p_proposer q /\
+            p_fdl (fold_left (fun q kv => add_funds blk q kv.1 kv.2) l q) = p_fdl q).
+  { induction l as [|[f a] l IH]; intros q; simpl; [auto|].
+    destruct (IH (add_funds blk q f a)) as (A1 & A2 & A3 & A4). rewrite A1, A2, A3, A4.
+    unfold add_funds. destruct (alookup f (p_indiv q)); simpl; auto. }
+  destruct (Ho (p_indiv p) (with_newf (with_funds (dump_rec ver p) 0 []) [])) as (O1 & O2 & O3 & O4).
+  simpl in O1, O2, O3, O4. rewrite O2, O3, O4.
+  repeat split; try congruence; try lia.
+  all: unfold dump_rec.
+  all: match goal with Hs : p_store ?x = SActive |- _ => rewrite (bool_decide_eq_true_2 _ Hs)
+                     | Hs : p_store ?x <> SActive |- _ => rewrite (bool_decide_eq_false_2 _ Hs) end; reflexivity.
+Qed.
+
+(* ---- the invariants (hence every theorem above) carry over a relaunch ---- *)
+Lemma same_record_PInv ver p r : same_record ver p r -> PInv p -> PInv r.
+Proof.
+  intros (E1 & E2 & E3 & E4 & E5 & E6 & E7 & E8 & E9 & E10 & E11 & _ & _) HP.
+  unfold PInv in *. rewrite E1, E2, E3, E6, E8, E9, E10, E11. exact HP.
+Qed.
+
+Lemma same_record_TP ver p r : same_record ver p r -> TP p -> TP r.
+Proof.
+  intros (E1 & E2 & E3 & E4 & E5 & E6 & E7 & E8 & E9 & E10 & E11 & _ & _) HP.
+  unfold TP in *. rewrite E1, E7, E11. exact HP.
+Qed.
+
+Lemma same_record_FInv ver p r : same_record ver p r -> FInv p -> FInv r.
+Proof.
+  intros (E1 & E2 & E3 & E4 & E5 & E6 & E7 & E8 & E9 & E10 & E11 & _ & _) HP.
+  unfold FInv in *. rewrite E9, E10. exact HP.
+Qed.
+
+Lemma same_record_WP ver p r : same_record ver p r -> WP p -> WP r.
+Proof.
+  intros (E1 & E2 & E3 & E4 & E5 & E6 & E7 & E8 & E9 & E10 & E11 & _ & _) HP.
+  unfold WP in *. rewrite E10, E11. exact HP.
+Qed.
+
+Definition AllInv (s : state) : Prop := Inv s /\ TInv s /\ FundsInv s /\ WInv s.
+
+(* load ∘ dump preserves every proposal record, its fund records and its votes *)
+Theorem reload_preserves : forall s ver bals pool, FundsInv s -> WInv s ->
+  forall id, match g_props s !! id with
+             | Some p => exists r, g_props (reload s ver bals pool) !! id = Some r /\ same_record ver p r
+             | None => g_props (reload s ver bals pool) !! id = None
+             end.
+Proof.
+  intros s ver bals pool HF HW id. unfold reload. simpl. rewrite load_dump_lookup.
+  destruct (g_props s !! id) as [p|] eqn:E; simpl; [|reflexivity].
+  eexists. split; [reflexivity|]. apply load_dump_record; [exact (HW id p E) | exact (proj2 (HF id p E))].
+Qed.
+
+Theorem reload_allinv : forall s ver bals pool, AllInv s ->
+  AllInv (reload s ver bals pool) /\ forall id, rank_of (reload s ver bals pool) id = rank_of s id.
+Proof.
+  intros s ver bals pool (HI & HT & HF & HW).
+  pose proof (reload_preserves s ver bals pool HF HW) as HR.
+  assert (Hback : forall id r, g_props (reload s ver bals pool) !! id = Some r ->
+            exists p, g_props s !! id = Some p /\ same_record ver p r).
+  { intros id r Hr. specialize (HR id). destruct (g_props s !! id) as [p|] eqn:E.
+    - destruct HR as (r' & Hr' & Hs). rewrite Hr in Hr'. inversion Hr'; subst. eauto.
+    - rewrite Hr in HR. discriminate. }
+  split; [split; [|split; [|split]]|].
+  - intros id r Hr. destruct (Hback id r Hr) as (p & E & Hs). eapply same_record_PInv; eauto.
+  - intros id r Hr. destruct (Hback id r Hr) as (p & E & Hs). eapply same_record_TP; eauto.
+  - intros id r Hr. destruct (Hback id r Hr) as (p & E & Hs). eapply same_record_FInv; eauto.
+  - intros id r Hr. destruct (Hback id r Hr) as (p & E & Hs). eapply same_record_WP; eauto.
+  - intros id. unfold rank_of. specialize (HR id). destruct (g_props s !! id) as [p|] eqn:E.
+    + destruct HR as (r & Hr & (E1 & E2 & _)). rewrite Hr. unfold rank. rewrite E1, E2. reflexivity.
+    + rewrite HR. reflexivity.
+Qed.
+
+Definition sane_hop (h : hop) : Prop := match h with HOp t => sane_op t | HReload _ _ _ => True end.
+
+Lemma hstep_allinv s h : sane_hop h -> AllInv s ->
+  AllInv (hstep s h).1.1 /\ forall id, (rank_of s id <= rank_of (hstep s h).1.1 id)%nat.
+Proof.
+  intros Hs (HI & HT & HF & HW). destruct h as [t|ver bals pool]; simpl in *.
+  - destruct (step_pres s t I HI) as [HI' HR].
+    destruct (step_good s t Hs (conj HI HT)) as [[_ HT'] _].
+    split; [|exact HR]. split; [exact HI'|]. split; [exact HT'|]. split; [apply step_funds; auto | apply step_winv; auto].
+  - destruct (reload_allinv s ver bals pool (conj HI (conj HT (conj HF HW)))) as [HA HR].
+    split; [exact HA|]. intros id. rewrite HR. lia.
+Qed.
+
+(* every history, relaunches included: all invariants hold and the stage never moves backwards *)
+Theorem hrun_allinv : forall hs s, Forall sane_hop hs -> AllInv s ->
+  AllInv (hrun s hs).1 /\ forall id, (rank_of s id <= rank_of (hrun s hs).1 id)%nat.
+Proof.
+  induction hs as [|h hs IH]; intros s Hn HA; simpl; [split; [exact HA | intros; lia]|].
+  inversion Hn as [|? ? Hn1 Hn2]; subst.
+  destruct (hstep_allinv s h Hn1 HA) as [A1 R1]. destruct (hstep s h) as [[s1 ok] ev]. simpl in *.
+  destruct (IH s1 Hn2 A1) as [A2 R2]. destruct (hrun s1 hs) as [s2 ev2]. simpl in *.
+  split; [exact A2|]. intros id. specialize (R1 id). specialize (R2 id). lia.
+Qed.
+
+Lemma AllInv_init : AllInv init.
+Proof.
+  split; [exact Inv_init|]. split; [exact (proj2 Good_init)|]. split; [exact FundsInv_init|].
+  intros i q H. unfold init in H. simpl in H. rewrite lookup_empty in H. discriminate.
+Qed.
+
+Theorem refund_in_full_inv : forall s id f ben p cur, Inv s -> FundsInv s ->
+  g_props s !! id = Some p -> refundable (p_outcome p) = true -> funded_visible (g_blk s) p f = true ->
+  alookup f (p_indiv p) = Some cur -> 0 < cur ->
+  exists s', h_withdraw s id f cur ben = Some (s', [EvRefund id f ben cur]).
+Proof.
+  intros s id f ben p cur HI HF E Hr Hv Hl Hc. destruct (HF id p E) as [Hnn Ht].
+  eapply refund_available; eauto.
+  - eapply refundable_failed; eauto.
+  - rewrite Ht. eapply alookup_le_asum; eauto.
+Qed.
